@@ -219,6 +219,29 @@ def run_views(res, spec, inst=None, name="inst-name", meta=None):
     d = inst.to_dict()
     same(JobShopInstance.from_matrices(**d), "dict")
     same(JobShopInstance.from_matrices(**json.loads(json.dumps(d))), "json")
+    # the caller's matrices must not be aliased, and the (documented) nested
+    # machines format must work for single-machine operations too
+    dur_in = [[dd for _, dd in job] for job in spec]
+    mach_in = [[list(ms) for ms, _ in job] for job in spec]
+    built = JobShopInstance.from_matrices(dur_in, mach_in, name=name, metadata=dict(meta))
+    same(built, "from_matrices-nested-machine-lists")
+    try:
+        arr_m = np.asarray(built.machines_matrix_array)
+        if arr_m.shape[:2] != (ref.J, maxlen):
+            bad("from_matrices-nested:machines_matrix_array-shape", shape=tuple(arr_m.shape))
+    except Exception as exc:  # noqa: BLE001
+        bad(f"from_matrices-nested:machines_matrix_array-raised:{type(exc).__name__}", error=repr(exc)[:200])
+    before = (repr(built.durations_matrix), repr(built.machines_matrix), content(built))
+    # (the inner eligible-machine lists are handed to Operation as they are -
+    # that is Operation's constructor contract and not touched here; the
+    # matrices themselves are the caller's)
+    dur_in[0][0] += 5
+    dur_in[-1].append(7)
+    mach_in[-1].append([0])
+    mach_in[0][0] = [ref.M + 3]
+    after = (repr(built.durations_matrix), repr(built.machines_matrix), content(built))
+    if before != after:
+        bad("from_matrices-aliases-the-callers-matrices", before=before[:2], after=after[:2])
     if not flexible:
         header = f"{ref.J} {ref.M}"
         rows = [" ".join(f"{ms[0]} {dd}" for ms, dd in job) for job in spec]
